@@ -82,8 +82,10 @@ def _comodo(ctx, P):
         if sv is None and dl != 0:
             # an unshifted coordinate of another length is a second 'centre candidate'
             want = None
+        # the mapping may not depend on the order in which the dataset lists the coordinates
+        orders = [list(coords), [Sym("o"), Sym("c"), Sym("unrelated")], [Sym("unrelated"), Sym("o"), Sym("c")]]
         try:
-            outs = run_comodo(P, coords)
+            outs = [o for order in orders for o in run_comodo(P, {k: coords[k] for k in order})]
         except Unmodelled as e:
             ctx.unknown("R14.1", inst, str(e))
             continue
@@ -107,10 +109,13 @@ def _comodo(ctx, P):
     try:
         outs = run_comodo(P, full)
         want = {"center": Sym("c"), "left": Sym("l"), "right": Sym("r"), "outer": Sym("out"), "inner": Sym("inn")}
-        if all(o.kind == "return" and o.value == want for o in outs):
-            ctx.ok("R14.1", "COMODO all five positions", "assigned as prescribed, both shift signs on inner/outer")
+        perms = [list(full), list(reversed(list(full))), [Sym("out"), Sym("inn"), Sym("r"), Sym("c"), Sym("l")], [Sym("inn"), Sym("c"), Sym("out"), Sym("l"), Sym("r")]]
+        outs = [o for order in perms for o in run_comodo(P, {k: full[k] for k in order})]
+        wrong = [o for o in outs if not (o.kind == "return" and o.value == want)]
+        if not wrong:
+            ctx.ok("R14.1", "COMODO all five positions", f"assigned as prescribed in {len(perms)} dataset orders, both shift signs on inner/outer")
         else:
-            ctx.report("R14.1", fi, "COMODO all five positions", f"yields {outs[0].value!r}, expected {want!r}")
+            ctx.report("R14.1", fi, "COMODO all five positions", f"yields {wrong[0].value!r} for some order of the dataset's coordinates, expected {want!r}")
         outs = run_comodo(P, {Sym("l"): full[Sym("l")], Sym("r"): full[Sym("r")]})
         if all(o.kind == "raise" for o in outs):
             ctx.ok("R14.1", "COMODO no centre coordinate", "refused")
